@@ -17,7 +17,7 @@ CLAIMED = {
                 "every path of every offered analytic integral, cache key/value correspondence and reset, result shape, and "
                 "parameter-dependence agreement of eval/eval_vectorized siblings. These are necessary conditions that hold for "
                 "every input/history because they hold on every CFG path; numerical equality (scalar vs vectorised, analytic vs "
-                "numerical integral) is NOT decided.",
+                "numerical integral) is NOT decided. Added during the build: single-point result is a copy (D7), declared output length (D8), vectorised buffer dtype (D9), dimension-subset index spaces and the sign exponent counting the subset it accompanies (D10).",
         "technique": "guard-correlated definite-assignment dataflow, CFG dominance, return-path analysis, value-term equality, "
                      "attribute-dependence comparison of sibling methods (stdlib ast)",
         "design_ref": "DESIGN.md section 3, C12",
@@ -87,7 +87,7 @@ CLAIMED = {
                 "reachable element store into the returned trapezoidal weight array adds a term that is >= 0 in the sign domain under the "
                 "sortedness axiom, and that axiom is an assertion dominating every weight computation in GlobalGrid.set_grid; (D2) the "
                 "weights are a function of the point set, the interval ends and the construction-time flag only (no attribute, level "
-                "array, cache or global read; flag init-only). Exactness of any 1-D rule is numerical and NOT decided.",
+                "array, cache or global read; flag init-only). Exactness of any 1-D rule is numerical and NOT decided. Added during the build: overlap-add of the split rule (D3), 3-/4-point modified-basis weights as polynomial identities (D4, followed into helpers), shared Gauss nodes not modified (D5), point-wise integrator skips only zero weights (D6), weight branches scaled alike (D7), and the Gauss rule for the moments is exact for every degree of the loop: 2 n(d) - 1 >= d decided per residue class of the integer variables under the loop guard (D8, sa/gauss.py).",
         "technique": "CFG specialisation by a constant flag, sign abstract interpretation with a sortedness axiom, depends-only-on / "
                      "effect scan, init-only ownership",
         "design_ref": "DESIGN.md section 3, C09",
@@ -124,7 +124,7 @@ CLAIMED = {
                 "written back to the same positions, and both solve branches solve that system; the QR factors are defined on exactly "
                 "the paths that use them (guard-correlated definite assignment); integrate stores and the interpolation routines look "
                 "up surpluses under the same key, storing the integrator's surpluses after the integration. Unique solvability and "
-                "reproduction of polynomials are numerical and NOT decided.",
+                "reproduction of polynomials are numerical and NOT decided. Added during the build: derivative recursions as formal derivatives (D5), per-grid surplus tables (D6), knot spacing of the area (D7), shared quadrature nodes not modified (D8), the stored Gauss rule leggauss(int(p/2)+1) is exact for degree p for every integer p (D9, sa/gauss.py).",
         "technique": "sibling agreement of filtered product loops, index dataflow by value terms, guard-correlated definite "
                      "assignment, key-term equality",
         "design_ref": "DESIGN.md section 3, C10",
